@@ -32,6 +32,20 @@ as the name of a function (the way Word stores lim/max/min with a limit), nested
 have no documented template (template clause silent) but every run below them must come out once, in order, balanced.
 The "props" wrapper now also interleaves the schema's property element of every object (sSubPr, sSupPr, sSubSupPr,
 funcPr, barPr, mPr with its column properties, ctrlPr inside dPr/naryPr/accPr) and a w:rPr inside every run.
+
+Document path (family X, helper c19_docs.py): users reach the converter only through read_docx / read_pptx. Every tree of
+the families X_FAMILIES (quick: Aw B2 T1 T2 G1 + XA = family A with the 3-operand lattice cut to absent / empty / label;
+thorough: every family of the quick enumeration, which contains XA) is ALSO embedded in a
+generated .docx and .pptx (16 formulas per document, each in its own paragraph between marker tokens, wrappers omath =
+inline, para = oMathPara/display, props = with w:rPr etc.), extracted with the real extractor, and must come out of
+`.formulas` (clause docpath: same LaTeX as the direct call, right display flag; a blank formula may be dropped) and of the
+full text / slide text (clause doctext: `$latex$` / `$$latex$$` in place; whitespace runs compared modulo their length).
+Document histories (family H3): in a fresh interpreter per sequence, a probe set (every character of the text alphabet
+alone in a run and as n-ary / delimiter / accent character, the node alphabet, the generic objects; ~3200 trees) is
+converted before and after every event of a sequence over the event alphabet {extract generated docx / pptx / xlsx of
+kind text / math / rich, convert a formula}; quick: the alphabet in order, reversed, and a sequence that repeats the
+math documents; thorough: every rotation, every triple a;b;a, and every shipped resource file through read_file. Clauses
+dochistory (a probe tree converts differently after an event) and docnondet (a repeated event observes something else).
 """
 from __future__ import annotations
 
@@ -800,6 +814,14 @@ def reexec(fmt, case):
     seed = int(os.environ.get("VERIF_SEED", "0"))
     if fmt == "history":
         return evaluate_history(case, seed)
+    if fmt in ("docx", "pptx"):
+        from verif.props import c19_docs
+        return [(c, m) for _, c, m in c19_docs.evaluate_pack(fmt, [case], seed)]
+    if fmt == "dochist":
+        from verif.props import c19_docs
+        probe = [case["probe"]] if case.get("probe") else [["omath", [R("L")]]]
+        r = c19_docs.run_history({"seed": seed, "tier": "quick", "events": case["events"], "probe": probe})
+        return [(c, m) for c, _, _, m in r["fails"]]
     fails, _ = evaluate(case, seed)
     return fails
 
@@ -830,6 +852,19 @@ def evaluate_history(case, seed=0):
 
 def shrinks(case):
     from verif.mc.findings import generic_shrinks
+    if isinstance(case, dict):      # document history {"events": [...], "probe": tree}
+        evs = case["events"]
+        for i in range(len(evs)):
+            if len(evs) > 1:
+                yield dict(case, events=evs[:i] + evs[i + 1:])
+        for i, e in enumerate(evs):
+            if e[0] in ("docx", "pptx", "xlsx") and e[1] != "text":
+                yield dict(case, events=evs[:i] + [[e[0], "text"]] + evs[i + 1:])
+        if case.get("probe"):
+            for sp in shrinks(case["probe"]):
+                if isinstance(sp, list) and len(sp) == 2 and sp[0] in ("omath", "para", "props") and isinstance(sp[1], list):
+                    yield dict(case, probe=sp)
+        return
     if len(case) == 2 and isinstance(case[0], list) and case[0] and case[0][0] in ("omath", "para", "props"):
         for i in (0, 1):       # history pair
             for s in shrinks(case[i]):
@@ -865,17 +900,48 @@ def shrinks(case):
     yield from subst(case)
 
 
+X_FAMILIES_QUICK = ("Aw", "B2", "T1", "T2", "G1")     # + XA below
+
+
+def xa_cases():
+    """XA: every single structure over the operand lattice absent / empty / each run text (2-operand constructors) and
+    absent / empty / label (3-operand constructors) - the slice of family A that the quick tier sends through documents"""
+    for s_ in structures(opnds(RUNS, pairs=False), [None, [], [R("L")]]):
+        yield ["omath", [s_]]
+
+
+def _hist_part(tier, idx, seed):
+    """one document-history sequence in a fresh interpreter"""
+    from verif.props import c19_docs
+    seq = c19_docs.history_sequences(tier)[idx]
+    r = c19_docs.run_history({"seed": seed, "tier": tier, "events": seq})
+    fails = [(c, "dochist", {"events": evs, "probe": probe}, m) for c, evs, probe, m in r["fails"]]
+    return {"ev": r["probes"] * (r["events"] + 1), "fails": fails, "outs": 0, "outset": [], "fam": {"H3": r["probes"] * (r["events"] + 1)},
+            "samples": [], "h3": {"sequences": 1, "events": r["events"], "probe_trees": r["probes"]}}
+
+
 def _part(arg):
     tier, k, n, seed = arg
+    if isinstance(k, str):
+        return _hist_part(tier, int(k[1:]), seed)
     ev = 0
     fails = []
     outs = set()
     fam = {}
     wf = 0
     samples = []
+    xtrees = []
+    xenum = enumerate_cases("quick") if tier != "quick" else None
+    if xenum is not None:
+        # thorough: every tree of the QUICK enumeration goes through the documents
+        xtrees = [t for i, (_, t) in enumerate(xenum) if i % n == k]
+    else:
+        xtrees = [t for i, t in enumerate(xa_cases()) if i % n == k]
     for i, (family, tree) in enumerate(enumerate_cases(tier)):
         if i % n != k:
             continue
+        if xenum is None and family in X_FAMILIES_QUICK:
+            xtrees.append(tree)
         f, out = evaluate(tree, seed)
         ev += 1
         fam[family] = fam.get(family, 0) + 1
@@ -901,6 +967,15 @@ def _part(arg):
                 fam["H2"] = fam.get("H2", 0) + 1
                 for clause, msg in evaluate_history([ta, tb], seed):
                     fails.append((clause, "history", [ta, tb], msg))
+    # X: the document path - packs of PACK formulas per generated .docx / .pptx
+    from verif.props import c19_docs
+    for fmt in ("docx", "pptx"):
+        for i in range(0, len(xtrees), c19_docs.PACK):
+            pack = xtrees[i:i + c19_docs.PACK]
+            ev += len(pack)
+            fam["X" + fmt] = fam.get("X" + fmt, 0) + len(pack)
+            for idx, clause, msg in c19_docs.evaluate_pack(fmt, pack, seed):
+                fails.append((clause, fmt, pack[idx] if idx is not None else pack[0], msg))
     return {"ev": ev, "fails": fails, "outs": len(outs), "outset": list(outs)[:200000], "fam": fam, "samples": samples}
 
 
@@ -909,6 +984,10 @@ def run(ctx):
     args = [(ctx.tier, k, n, ctx.seed) for k in range(n)]
     rnd = random.Random(ctx.seed)
     rnd.shuffle(args)
+    from verif.props import c19_docs
+    nseq = len(c19_docs.history_sequences(ctx.tier))
+    args = [(ctx.tier, "H%d" % i, n, ctx.seed) for i in range(nseq)] + args     # fresh-interpreter histories start first
+    h3 = {"sequences": 0, "events": 0, "probe_trees": 0}
     res = P.run_all("verif.props.C19", "_part", args, n=ctx.ncpu, hard_timeout=1800)
     ev = 0
     fails = []
@@ -926,6 +1005,10 @@ def run(ctx):
         for k_, v in r["fam"].items():
             fam[k_] = fam.get(k_, 0) + v
         samples += r["samples"]
+        if r.get("h3"):
+            h3["sequences"] += 1
+            h3["events"] += r["h3"]["events"]
+            h3["probe_trees"] = r["h3"]["probe_trees"]
     samples = sorted(samples, key=lambda s: str(s))[:5]
     cov = {"evaluations": ev, "distinct_nontrivial": len(outs),
            "rule": "every OMML tree of the constructor grammar (families A: single structure x operand lattice incl. absent/empty/"
@@ -938,14 +1021,24 @@ def run(ctx):
                    "thorough: in every operand slot and all ordered pairs over the neighbour alphabet; G1-G6: the OMML objects "
                    "without a dedicated form (limLow limUpp sPre box borderBox groupChr eqArr phant) x property element x "
                    "argument lattice, in every slot of every constructor, holding every node of the alphabet, as function "
-                   "name, nested; distinct_nontrivial = distinct LaTeX outputs",
+                   "name, nested; distinct_nontrivial = distinct LaTeX outputs; Xdocx/Xpptx: the trees of the families "
+                   "listed in bounds.document_path_families embedded in generated .docx/.pptx (16 per document), extracted by "
+                   "read_docx/read_pptx, formulas and text compared with the direct conversion; H3: document histories in fresh "
+                   "interpreters - the probe set converted before and after every event (extraction of a generated "
+                   "docx/pptx/xlsx of kind text/math/rich, a direct conversion, thorough: every shipped resource file)",
            "samples": samples, "families": fam, "exhaustive": True,
            "bounds": {"tier": ctx.tier, "depth": 3 if ctx.quick else 4, "sequence_length": 3,
                       "text_alphabet_chars": len(char_alphabet(ctx.tier)), "mapped_symbols": len(REF_SYM),
                       "neighbour_alphabet_chars": len(neighbour_alphabet()),
                       "symbol_blocks": ["U+%04X-U+%04X" % b for b in SYMBOL_BLOCKS],
                       "extra_blocks": ["U+%04X-U+%04X" % b for b in EXTRA_BLOCKS] if not ctx.quick else "sample of %d" % len(EXTRA_SAMPLE),
-                      "generic_objects": GTAGS, "generic_argument_lattice": "absent, empty, run, symbol, two runs"}}
+                      "generic_objects": GTAGS, "generic_argument_lattice": "absent, empty, run, symbol, two runs",
+                      "document_path_families": ["XA"] + list(X_FAMILIES_QUICK) if ctx.quick else "every family of the quick enumeration",
+                      "document_formats": ["docx", "pptx"], "formulas_per_document": c19_docs.PACK,
+                      "document_history": dict(h3, event_alphabet=c19_docs.event_alphabet(ctx.tier),
+                                               sequences_rule="quick: alphabet in order, reversed, math documents repeated; "
+                                                              "thorough: + every rotation, every a;b;a, shipped resource files "
+                                                              "in sorted and reverse order")}}
     return {"coverage": cov, "failures": fails, "harness_errors": herr,
             "assumptions": ["ElementTree built in memory is equivalent to the tree ET parses from XML text",
                             "reference templates transcribed from the module docstring; compared only on the well-formed subset "
@@ -954,5 +1047,11 @@ def run(ctx):
                             "or through the symbol table",
                             "the symbol table is a frozen transcription (REF_SYM, 87 entries); a character outside it must pass "
                             "through unchanged or as the command the library's own table declares for it",
+                            "document path: the formula is serialised by verif/gen/ooxml.py (m: prefix, xml:space=preserve "
+                            "on whitespace text) - parsing it back gives the in-memory tree; in the document TEXT the amount and "
+                            "kind of whitespace is not compared (paragraph-level blank-line normalisation is not a matter of the "
+                            "conversion), a formula whose LaTeX is blank may be dropped from formulas and text",
+                            "document histories run in a fresh interpreter started with the environment of the check; the "
+                            "probe set is judged against its own conversion at the start of that interpreter",
                             "run texts are limited to XML-representable characters; label characters (digits, U+00C0-U+00DE) "
                             "are not part of the character alphabet"]}
